@@ -608,6 +608,59 @@ fn posteriors(h: &Mat, llrs: &[f64]) -> Vec<f64> {
         .collect()
 }
 
+/// Own sum-product on the forest (f64, stable box-plus) run to the fixed point; returns the
+/// posterior LLRs and the first-order error unit of the worst edge:
+/// max over check outputs of (d + sum_j phi(|x_j|)) * sinh(|y|) + d + |y| + max|x_j|
+/// (conditioning of phi / atanh at the output, cancellation in the phi sum, input magnitudes).
+fn own_bp(h: &Mat, llrs: &[f64]) -> (Vec<f64>, f64) {
+    let rows = h.row_lists();
+    let cols = h.col_lists();
+    let mut v2c: BTreeMap<(usize, usize), f64> = BTreeMap::new();
+    let mut c2v: BTreeMap<(usize, usize), f64> = BTreeMap::new();
+    for (c, row) in rows.iter().enumerate() {
+        for &v in row {
+            v2c.insert((c, v), llrs[v]);
+            c2v.insert((c, v), 0.0);
+        }
+    }
+    let phi = |x: f64| -((0.5 * x.abs().max(1e-30)).tanh().ln());
+    let mut unit = 1.0f64;
+    let iters = 2 * (h.rows + h.cols);
+    for it in 0..iters {
+        for (c, row) in rows.iter().enumerate() {
+            let d = row.len() as f64;
+            let sum_phi: f64 = row.iter().map(|&v| phi(v2c[&(c, v)])).sum();
+            let maxin = row.iter().map(|&v| v2c[&(c, v)].abs()).fold(0.0, f64::max);
+            for &v in row {
+                let mut acc: Option<f64> = None;
+                for &w in row {
+                    if w != v {
+                        let x = v2c[&(c, w)];
+                        acc = Some(match acc {
+                            None => x,
+                            Some(a) => super::c04::boxplus(a, x),
+                        });
+                    }
+                }
+                let y = acc.unwrap_or(0.0);
+                c2v.insert((c, v), y);
+                if it + 1 == iters {
+                    let u = (d + sum_phi) * y.abs().min(700.0).sinh() + d + y.abs() + maxin;
+                    unit = unit.max(u);
+                }
+            }
+        }
+        for (v, col) in cols.iter().enumerate() {
+            let total: f64 = llrs[v] + col.iter().map(|&c| c2v[&(c, v)]).sum::<f64>();
+            for &c in col {
+                v2c.insert((c, v), total - c2v[&(c, v)]);
+            }
+        }
+    }
+    let post = (0..h.cols).map(|v| llrs[v] + cols[v].iter().map(|&c| c2v[&(c, v)]).sum::<f64>()).collect();
+    (post, unit)
+}
+
 fn tree_depth_ge2(h: &Mat) -> bool {
     // some variable at distance >= 4 from another variable (two checks deep)
     let g = Graph::from_mat(h);
@@ -620,7 +673,7 @@ fn tree_depth_ge2(h: &Mat) -> bool {
     false
 }
 
-fn exact_one<A>(name: &str, arith: A, eps: f64, h: &Mat, llrs: &[f64], post: &[f64], layered: bool, p: &mut Probe) -> Check
+fn exact_one<A>(name: &str, arith: A, eps: f64, h: &Mat, llrs: &[f64], post: &[f64], unit: f64, layered: bool, p: &mut Probe) -> Check
 where
     A: DecoderArithmetic + 'static,
     A::Llr: ToF64,
@@ -659,10 +712,11 @@ where
         }
     }
     let e_edges = h.set().len() as f64;
-    let m = post.iter().fold(0.0f64, |a, &b| a.max(b.abs()));
     for v in 0..n {
         ensure!(!got[v].is_nan(), "exact-missing", "{name}: no LLR recorded for variable {v}");
-        let tol = 16.0 * eps * e_edges * (1.0 + m.exp() / 2.0) * (1.0 + post[v].abs());
+        // every edge contributes at most one error unit (the check rule is 1-Lipschitz in each
+        // input, variable nodes add); the channel LLR is rounded once to the working precision
+        let tol = 16.0 * eps * ((e_edges + 1.0) * unit + post[v].abs() + 4.0);
         let err = (got[v] - post[v]).abs();
         p.metric(if eps < 1e-10 { "f64_err_over_tol" } else { "f32_err_over_tol" }, err / tol);
         p.metric(if eps < 1e-10 { "f64_rel_err" } else { "f32_rel_err" }, err / (1.0 + post[v].abs()));
@@ -694,14 +748,23 @@ fn check_forest(case: &ForestCase, p: &mut Probe) -> Check {
     let g = Graph::from_mat(&h);
     ensure!(g.girth().is_none(), "generator", "generated graph is not a forest");
     let post = posteriors(&h, &llrs);
-    exact_one("flooding/Phif64", Phif64::new(), f64::EPSILON, &h, &llrs, &post, false, p)?;
-    exact_one("layered/Phif64", Phif64::new(), f64::EPSILON, &h, &llrs, &post, true, p)?;
-    exact_one("flooding/Tanhf64", Tanhf64::new(), f64::EPSILON, &h, &llrs, &post, false, p)?;
-    exact_one("layered/Tanhf64", Tanhf64::new(), f64::EPSILON, &h, &llrs, &post, true, p)?;
-    exact_one("flooding/Phif32", Phif32::new(), f32::EPSILON as f64, &h, &llrs, &post, false, p)?;
-    exact_one("layered/Phif32", Phif32::new(), f32::EPSILON as f64, &h, &llrs, &post, true, p)?;
-    exact_one("flooding/Tanhf32", Tanhf32::new(), f32::EPSILON as f64, &h, &llrs, &post, false, p)?;
-    exact_one("layered/Tanhf32", Tanhf32::new(), f32::EPSILON as f64, &h, &llrs, &post, true, p)?;
+    // own sum-product to the fixed point: must reproduce the brute-force posteriors (self-check of
+    // the oracle) and supplies the conditioning of the worst edge for the tolerance
+    let (own, unit) = own_bp(&h, &llrs);
+    for v in 0..h.cols {
+        if (own[v] - post[v]).abs() > 1e-9 * (1.0 + post[v].abs()) + 64.0 * f64::EPSILON * unit * (h.set().len() as f64 + 1.0) {
+            return Err(Fail::new(INCONCLUSIVE, format!("oracle self-check failed: own sum-product gives {} for variable {v}, enumeration of all codewords gives {}", own[v], post[v])));
+        }
+    }
+    p.metric("error_unit_max", unit);
+    exact_one("flooding/Phif64", Phif64::new(), f64::EPSILON, &h, &llrs, &post, unit, false, p)?;
+    exact_one("layered/Phif64", Phif64::new(), f64::EPSILON, &h, &llrs, &post, unit, true, p)?;
+    exact_one("flooding/Tanhf64", Tanhf64::new(), f64::EPSILON, &h, &llrs, &post, unit, false, p)?;
+    exact_one("layered/Tanhf64", Tanhf64::new(), f64::EPSILON, &h, &llrs, &post, unit, true, p)?;
+    exact_one("flooding/Phif32", Phif32::new(), f32::EPSILON as f64, &h, &llrs, &post, unit, false, p)?;
+    exact_one("layered/Phif32", Phif32::new(), f32::EPSILON as f64, &h, &llrs, &post, unit, true, p)?;
+    exact_one("flooding/Tanhf32", Tanhf32::new(), f32::EPSILON as f64, &h, &llrs, &post, unit, false, p)?;
+    exact_one("layered/Tanhf32", Tanhf32::new(), f32::EPSILON as f64, &h, &llrs, &post, unit, true, p)?;
     p.inner += 8;
     let deep = tree_depth_ge2(&case.h);
     p.class_if(deep, "depth>=2");
@@ -734,7 +797,7 @@ pub fn property() -> Property {
             }),
             Box::new(Sub {
                 name: "exactness",
-                rule: "random bipartite forests (2..=12 variables, checks of degree 2..=4 attached to existing trees, occasionally a new tree; acyclicity asserted with the own girth oracle) plus a 3-variable single-check gadget with LLRs (1, 1, -0.5) that forces the run to the limit; channel LLRs uniform in +-4; Tracing<Phif64|Tanhf64|Phif32|Tanhf32> in both schedules for 2 x (number of nodes) iterations; recorded per-bit LLRs vs brute-force posteriors over all codewords within 16*eps*E*(1+e^M/2)*(1+|L|); non-trivial = a tree two checks deep",
+                rule: "random bipartite forests (2..=12 variables, checks of degree 2..=4 attached to existing trees, occasionally a new tree; acyclicity asserted with the own girth oracle) plus a 3-variable single-check gadget with LLRs (1, 1, -0.5) that forces the run to the limit; channel LLRs uniform in +-4; Tracing<Phif64|Tanhf64|Phif32|Tanhf32> in both schedules for 2 x (number of nodes) iterations; recorded per-bit LLRs vs brute-force posteriors over all codewords within 16*eps*((E+1)*U + |L| + 4), U = worst-edge error unit (d + sum phi(|x_j|)) sinh|y| + d + |y| + max|x_j| taken from an own sum-product run that is itself checked against the enumeration; non-trivial = a tree two checks deep",
                 cases: |t| t.pick(40_000, 1_500_000),
                 strategy: forest_strategy,
                 check: check_forest,
